@@ -165,3 +165,17 @@ MUTANTS += [
  dict(id='c17-passthrough', props=['C17'], file=I, old='    if generic_event_code not in ["SP", "HT", "JT", "DT", "WT"]:\n        return generic_event_code',
       new='    if generic_event_code not in ["SP", "HT", "JT", "DT", "WT"]:\n        return generic_event_code.upper()'),
 ]
+
+MUTANTS += [
+ # ---- C12 -----------------------------------------------------------------------
+ dict(id='c12-velocity-110', props=['C12'], file=U, old="                if velocity > 11.0:", new="                if velocity > 110.0:"),
+ dict(id='c12-no-9999', props=['C12'], file=U, old="        if points > 9999:", new="        if points > 99999:"),
+ dict(id='c12-field-1dp', props=['C12'], file=U, old='            return "%0.2f" % distance', new='            return "%0.1f" % distance'),
+ dict(id='c12-multi-valueerror', props=['C12'], file=U,
+      old="""            raise errorKlass(
+                "'%s' is not a valid points value for multi-events\"""", new="""            raise ValueError(
+                "'%s' is not a valid points value for multi-events\""""),
+ dict(id='c12-too-slow', props=['C12'], file=U, old="            if velocity < 0.5:", new="            if velocity < 0.05:"),
+ dict(id='c12-unfix-60', props=['C12'], file=U, old="        if ((minutes or hours) and seconds >= 60) or (hours and minutes >= 60):", new="        if False:"),
+ dict(id='c12-record-ulpc', props=['C12'], file=U, old="            if record and distance>record*ulpc:", new="            if record and distance>record*ulpc*ulpc:"),
+]
